@@ -213,12 +213,13 @@ fn batch_lossy(input: &str, c: &Command) -> bool {
         _ => false,
     }
 }
-/// text the numeric-literal scan of `panic_class` looks at: the input, plus (BATCH) its Number tokens as the collector re-prints them
+/// text the numeric-literal scan of `panic_class` looks at: the input, plus (BATCH) the member texts as
+/// the collector rebuilds them — that is what the member parser sees
 fn scan_text(input: &str) -> String {
     let toks = tokenize(input.trim());
     let mut t = input.to_string();
     if toks.first().is_some_and(|t| word_is(t, "BATCH")) {
-        for k in &toks { if let Token::Number(n) = k { t.push(' '); t.push_str(&n.to_string()); } }
+        for part in batch_rebuild(input) { t.push_str(" ; "); t.push_str(&part); }
     }
     t
 }
